@@ -54,10 +54,7 @@ Definition run_verify (args : list bytes) : bytes :=
 (* the observable the SPECIFICATION demands for a well-formed event *)
 Definition spec_observable (ver : bytes) (j : json) (verr : bool) (valid : bytes -> bool) : bytes :=
   let req := required_spec ver j in
-  let ts := match jget (bs "origin_server_ts") j with
-            | Some (JNum raw) => match parse_dec raw with Some n => n | None => 0 end
-            | _ => 0
-            end in
+  let ts := s_ts j in
   verdict (negb verr && forallb valid req) ++ nl ++
   match req with
   | [] => bs "asked"
